@@ -113,6 +113,19 @@ theorem step_inCtx {s s' : St V} {i : Nat} (h : step s (.inCtx i) = some s') :
     · simp at h
   · simp at h
 
+/-- `ctxEnds` needs an origin of the context other than `plainCancel` (no generated fact is used here:
+the lemmas below take "the origin is `plainCancel`" as a hypothesis, which the property theorems of
+`Props/C12*.lean` discharge from the regenerated facts inside their own proofs). -/
+theorem step_ctxEnds {s s' : St V} (h : step s .ctxEnds = some s') :
+    s.origin ≠ .plainCancel ∧ s.cancelled = false ∧ s' = { s with cancelled := true } := by
+  simp only [step] at h
+  split at h
+  · rename_i hc; simp at hc; simp at h; exact ⟨hc.1, hc.2, h.symm⟩
+  · simp at h
+
+theorem no_ctxEnds {s s' : St V} (ho : s.origin = .plainCancel) (h : step s .ctxEnds = some s') : False :=
+  (step_ctxEnds h).1 ho
+
 theorem step_cas {s s' : St V} {i : Nat} (h : step s (.cas i) = some s') :
     ∃ g e, s.gs[i]? = some g ∧ g.pc = .gotErr e ∧
       ((s.closeOnce = false ∧
@@ -247,6 +260,13 @@ theorem step_cEnd {s s' : St V} (h : step s .cEnd = some s') :
 theorem step_cCtx {s s' : St V} (h : step s .cCtx = some s') :
     s.cpc = .inNext false ∧ s' = { s with cpc := .idle, results := s.results ++ [.ctx] } := by
   simp only [step, nextArmCtx_eq, if_true] at h
+  split at h
+  · rename_i hp; simp at h; exact ⟨hp, h.symm⟩
+  · simp at h
+
+theorem step_cExpire {s s' : St V} (h : step s .cExpire = some s') :
+    s.cpc = .inNext true ∧ s' = { s with cpc := .inNext false } := by
+  simp only [step] at h
   split at h
   · rename_i hp; simp at h; exact ⟨hp, h.symm⟩
   · simp at h
